@@ -137,6 +137,14 @@ def run(ctx):
     mu = rng.choice([0.25, 0.5, 1])
     if island.within_island(dict(base, mu=R(mu))):
       variants.append((c, 'fed_prox', dict(base, mu=R(mu)), {'mu': mu}, 'rounds'))
+    # the same reductions with an L2 regulariser lambda/2 |w|^2 handed to the algorithms that take one
+    lam = rng.choice([0.25, 0.5])
+    rbase = dict(base, reg=R(lam))
+    if ci % 2 == 0 and island.within_island(rbase):
+      variants.append((c, 'fed_avg', rbase, {'reg': lam}, 'rounds'))
+      variants.append((c, 'hyp_cluster', rbase, {'clusters': 1, 'reg': lam}, 'rounds'))
+      if not c['pool_a']:
+        variants.append((c, 'mime_lite', dict(rbase, sopt=island.opt_spec('sgd', 1)), {'server_lr': 1.0, 'reg': lam}, 'rounds'))
   for c in mime_cases:
     variants.append((c, 'mime', dict(c['inst']), {'server_lr': float(island.frac(c['inst']['mime_slr']))}, 'mime'))
   # a fixed instance with a round without any example under a stateful server optimizer (see known_findings.json)
@@ -147,16 +155,32 @@ def run(ctx):
   fxc = {'inst': fx, 'h': fxh, 'exact': False, 'pool_a': True}
   for nm, kw in (('fed_avg', {}), ('fed_prox', {'mu': 0.0}), ('hyp_cluster', {'clusters': 1}), ('apfl', {'coef': 0.5})):
     variants.append((fxc, nm, dict(fx, mime_slr=R(1)), kw, 'rounds'))
+  # a fixed instance whose cohorts list clients with fewer batches BEFORE clients with more (1, 3 and 2 local steps):
+  # backends that re-order clients by batch count must still pair every client with its own weight
+  fy = {'data': [[[1, 0]], [[2, 1], [3, -1], [0, 2], [1, 1], [4, 4]], [[5, 2], [0, 0], [2, 2]]], 'init': [R(0), R(1)], 'copt': island.opt_spec('sgd', 0.25),
+        'sopt': island.opt_spec('sgd', 1), 'mu': R(0), 'rounds': 2, 'cohorts': [[1, 2, 3], [3, 1, 2]]}
+  fyh = {'bs': 2, 'epochs': 1, 'steps': None, 'drop': False, 'seed': 3, 'skip': False}
+  fy['stream'] = island.real_streams(fedjax, island.datasets(fedjax, fy['data']), island.hparams(fedjax, fyh))
+  fyc = {'inst': fy, 'h': fyh, 'exact': False, 'pool_a': False}
+  for nm, kw in (('fed_avg', {}), ('fed_prox', {'mu': 0.0}), ('hyp_cluster', {'clusters': 1}), ('apfl', {'coef': 0.25}), ('mime_lite', {'server_lr': 1.0}),
+                 ('fed_prox', {'mu': 0.5})):
+    for _ in range(3):     # (the backend rotates with the position in this list: each algorithm meets jit, debug and pmap)
+      variants.append((fyc, nm, dict(fy, mime_slr=R(1), mu=R(kw.get('mu', 0.0))), kw, 'rounds'))
   expected = island.oracle(ctx, [v[2] for v in variants], 'R')
   n_ok = 0
   skip_checked = []
-  for (c, name, oinst, kw, which), exp in zip(variants, expected):
-    rec = algs.run_rounds(fedjax, name, c, order='listed' if rng.random() < .5 else 'reversed', **kw)
+  for vi, ((c, name, oinst, kw, which), exp) in enumerate(zip(variants, expected)):
+    # every for_each_client backend (the pmap backend re-orders clients by batch count, also on one device)
+    backend = (None, 'debug', 'pmap')[vi % 3]
+    if name in ('mime_lite', 'mime') and vi % 2 == 0:
+      backend = 'pmap'      # these keep per-client bookkeeping next to the for_each_client loop
+    rec = algs.run_rounds(fedjax, name, c, order='listed' if rng.random() < .5 else 'reversed', backend=backend, **kw)
+
     inst = c['inst']
     busy = sum(1 for d in inst['data'] if d) >= 2 and (inst['rounds'] >= 2 or max(len(s) for s in inst['stream']) >= 2)
     label = f'{name}({", ".join(f"{k}={v}" for k, v in kw.items())})'
     ctx.case(key=(label, repr(oinst)), nontrivial=busy)
-    cfg = {'algorithm': label, 'instance': oinst, 'hparams': c['h']}
+    cfg = {'algorithm': label, 'instance': oinst, 'hparams': c['h'], 'backend': backend or 'jit'}
     if rec['error']:
       ctx.violation(f'replay:{name}:exception:{rec["error"].split(":")[0]}', f'{label}: {rec["error"]} on instance {oinst}', replay=dict(cfg, tb=rec.get('tb')))
       continue
@@ -179,7 +203,7 @@ def run(ctx):
         skip_checked.append(1)
         if all(np.allclose(rec['rounds'][r], [float(island.frac(x)) for x in alt['rounds'][r]], rtol=1e-5, atol=1e-5) for r in range(inst['rounds'])):
           key = 'hyp-cluster-skips-the-server-step-of-a-round-without-examples'
-      ctx.violation(key, f'{bad} (hparams={c["h"]}, instance={oinst})', replay=cfg)
+      ctx.violation(key, f'{bad} (backend={backend or "jit"}, hparams={c["h"]}, instance={oinst})', replay=cfg)
     else:
       n_ok += 1
   ctx.trace_ok(n_ok)
